@@ -29,7 +29,7 @@ import os
 import shutil
 import tempfile
 
-from harness import c14pos, core, tables_io
+from harness import c14hist, c14pos, core, tables_io
 
 PROP = 'C14'
 
@@ -937,6 +937,7 @@ def run(ctx):
     check_synthetic(ctx, 8 if q else 80, 40, 20)
     check_normalize(ctx)
     check_unknown(ctx)
+    c14hist.run(ctx)
     c14pos.run(ctx)
     report_breaks(ctx)
     ctx.assumptions = ['descriptor objects shared between cached sequences behave as values (no mutation after loading)',
@@ -952,6 +953,8 @@ def replay(ctx, path):
     ctx.seen_row_failures = set()
     if r.get('positions'):
         c14pos.replay(ctx, r)
+    elif r.get('history'):
+        c14hist.replay(ctx, r)
     elif r.get('unknown'):
         tag, pids, _ = unknown_case(ctx, r['ids'], r['vals'], r['k'], r['role'], r['new_id'])
         if tag is None:
